@@ -406,7 +406,10 @@ func TestC15_VersionSweep(t *testing.T) {
 		for _, mode := range []string{"gmserver", "autoserver", "tlsserver"} {
 			ok := v == 0x0101 && mode != "tlsserver"
 			helloCase(t, mode, rgmssl.ClientOpts{VersionOverride: uint16(v), ForceVersion: true}, fmt.Sprint("v", v), ok, fmt.Sprintf("ClientHello version %#04x", v))
-			n++
+			// the same hello offering TLS suites as well, so that the version reaches the TLS code paths too (the
+			// scripted GMSSL client cannot finish a TLS handshake: still only version 0x0101 may complete)
+			helloCase(t, mode, rgmssl.ClientOpts{VersionOverride: uint16(v), ForceVersion: true, Suites: []uint16{tlsx.GMECCSM4CBCSM3, tlsx.GMECCSM4GCMSM3, 0xc02f, 0xc014, 0x009c, 0x002f, 0x0035}}, fmt.Sprint("w", v), ok, fmt.Sprintf("ClientHello version %#04x offering GM and TLS suites", v))
+			n += 2
 		}
 		R.Case(true, hx.HashKey("vers", v), "vers_sweep")
 	}
